@@ -49,7 +49,7 @@ def vector_min(*args):
         - Scalar if all inputs are scalar
         - np.array if any input is an array
     """
-    return reduce(np.minimum, args)
+    return reduce(np.minimum, args) * 1.0  # nb. always floating point: with only integer arguments numpy would return an integer, and e.g. `min(3,5)**(-1)` raises for numpy integers
 
 
 def vector_max(*args):
@@ -71,7 +71,7 @@ def vector_max(*args):
         - Scalar if all inputs are scalar
         - np.array if any input is an array
     """
-    return reduce(np.maximum, args)
+    return reduce(np.maximum, args) * 1.0  # nb. always floating point (see `vector_min`)
 
 
 # Only calls to functions in the dict below will be permitted
